@@ -68,15 +68,17 @@ def admissible_po(fparams, names):
 VALUES_P = [('p', i) for i in range(12)]
 
 
-def behaviour(func, sp, skip_mask=0):
-    """Outcome per shape: 'T' (TypeError) or the returned mapping."""
+def behaviour(func, sp, skip_mask=0, kwvalue=None):
+    """Outcome per shape: 'T' (TypeError) or the returned mapping.
+    kwvalue: a function name -> value for the keyword arguments (default: a tagged tuple)."""
+    kwvalue = kwvalue or (lambda k: ('k', k))
     out = []
     for i, (n, kws) in enumerate(sp.shapes):
         if (skip_mask >> i) & 1:
             out.append(None)
             continue
         try:
-            r = func(*VALUES_P[:n], **{k: ('k', k) for k in kws})
+            r = func(*VALUES_P[:n], **{k: kwvalue(k) for k in kws})
         except TypeError:
             out.append('T')
         else:
@@ -184,6 +186,22 @@ def check_case(ctx, prop, fparams, decorate_src, make_kwo, make_po, admissible, 
         return None
     ctx.nontrivial((sigs.shape_key(fparams), tuple(decorate_src), method, reuse))
     want = sig_meta(inspect.signature(ref))
+    if not method and type(g).__name__ == '_PokTranslator' and (len(fparams) * 7 + len(decorate_src) + len(make_kwo) * 3 + len(make_po)) % 4 == 0:
+        # functools.wraps / update_wrapper copies the metadata of ANOTHER decorated callable (other parameters, another
+        # selection) onto this one: name, doc and attributes change hands, what it advertises and how it routes
+        # arguments stay its own (the repository's tests pin .func, .kwoarg_names and the signature for this)
+        import functools
+        from sigtools import modifiers as _mod2
+
+        def donor_(p_, q_=1, r_=2):
+            return None
+        try:
+            g = functools.wraps(_mod2.posoargs('p_')(_mod2.kwoargs('r_')(donor_)))(g)
+        except Exception as e:
+            V('wraps-over-decorated-raises-%s' % type(e).__name__, 'functools.wraps(another decorated callable)(decorated callable) raised %s: %s' % (type(e).__name__, e), w)
+            return None
+        ctx.count('%s.metadata_of_another_decorated_callable_copied_on' % prop)
+        w = dict(w, functools_wraps_applied='metadata of @posoargs("p_") @kwoargs("r_") def donor_(p_, q_=1, r_=2) copied on')
     # now and then modifiers.annotate is applied on top afterwards: it re-prepares the layers beneath it,
     # which must leave the advertised kinds/defaults and the call behaviour exactly as they were
     late = None
@@ -227,6 +245,23 @@ def check_case(ctx, prop, fparams, decorate_src, make_kwo, make_po, admissible, 
     b_g = behaviour(g, sp, skip)
     b_r = behaviour(ref, sp, skip)
     ctx.count('%s.calls_compared' % prop, sum(1 for x in b_g if x is not None))
+    # the same shapes once more with falsy / None values passed by keyword (an explicitly passed None, 0 or ''
+    # is a value like any other: it must arrive, not be taken for "not passed" and replaced by the default)
+    falsy_ = {0: None, 1: 0, 2: ''}
+    kwv = lambda k: falsy_[(len(k) + len(fparams) + sum(map(ord, k))) % 3]
+    b_g2 = behaviour(g, sp, skip, kwv)
+    b_r2 = behaviour(ref, sp, skip, kwv)
+    ctx.count('%s.calls_compared_with_falsy_keyword_values' % prop, sum(1 for x in b_g2 if x is not None))
+    for (n, kws), x, y in zip(sp.shapes, b_g2, b_r2):
+        if x is None or x == 'T' or y == 'T':
+            continue
+        if method:
+            x = {k: v for k, v in x.items() if k != visible_self(fparams)}
+            y = {k: v for k, v in y.items() if k != visible_self(fparams)}
+        if x != y:
+            V('falsy-keyword-value-not-delivered', 'a None / 0 / empty value passed by keyword does not arrive at its parameter',
+              dict(w, advertised=str(inspect.signature(ref)), shape=[n, sorted(kws)], got=repr(x), expected=repr(y)))
+            break
     ctx.sample('decoration', lambda: dict(w, advertised=str(inspect.signature(ref)),
                                           shapes_compared=sum(1 for x in b_g if x is not None)), limit=4)
     for (n, kws), x, y in zip(sp.shapes, b_g, b_r):
